@@ -70,8 +70,13 @@ func (n *Net) anyIfOwnedBy(as, br int) uint16 {
 // Inject walks raw, handed by a host of AS as to border router br, through the network until it is delivered to
 // a host, dropped, or (when an SCMP error is generated) until the SCMP message is delivered or dropped.
 func (n *Net) Inject(raw []byte, as, br int) Outcome {
-	return n.walk(raw, as, br, rtr.FromHost)
+	in := rtr.FromHost
+	in.SrcUD = HostUnderlay(as)
+	return n.walk(raw, as, br, in)
 }
+
+// HostUnderlay is the underlay address the sending host of AS as uses (its SCION host address and UDP source port).
+func HostUnderlay(as int) string { return fmt.Sprintf("10.%d.1.10:40000", as+1) }
 
 func (n *Net) walk(raw []byte, as, br int, in rtr.Ingress) (o Outcome) {
 	o.SCMPFrom = -1
